@@ -1,8 +1,6 @@
 // unit part: src/fixed_priority/fully_nonpreemptive.rs (C06)
 verus! {
 
-/// demand of the task under analysis: cost C for each of the na(x) jobs
-pub open spec fn tua_fn<AB: ArrivalBound + ?Sized>(c: int, ab: &AB) -> spec_fn(int) -> int { |x: int| c * ab.na(x) }
 pub open spec fn rem_of<AB: ArrivalBound + ?Sized>(tua: &TaskUnderAnalysis<AB>) -> int { tua.wcet.wcet.v() - 1 }
 
 pub open spec fn pre<AB: ArrivalBound + ?Sized, B: RequestBound>(tua: &TaskUnderAnalysis<AB>, hp: Seq<B>, limit: int) -> bool {
@@ -18,34 +16,8 @@ pub open spec fn pre<AB: ArrivalBound + ?Sized, B: RequestBound>(tua: &TaskUnder
 }
 /// C06 for fully non-preemptive FP: blocking b, run-to-completion threshold eps, remaining cost C - 1
 pub open spec fn spec_result<AB: ArrivalBound + ?Sized, B: RequestBound>(tua: &TaskUnderAnalysis<AB>, hp: Seq<B>, limit: int) -> Option<int> {
-    fpx_spec(tua_fn(tua.wcet.wcet.v(), tua.arrivals), hp_fn(hp), tua.blocking_bound.v(), rem_of(tua), limit)
+    np_spec(tua.wcet.wcet.v(), na_fn(tua.arrivals), hp_fn(hp), tua.blocking_bound.v(), limit)
 }
-pub proof fn lemma_tua_fn<AB: ArrivalBound + ?Sized>(c: int, ab: &AB)
-    requires c >= 1, ab.wf(), ab.na(1) >= 1
-    ensures rbf_like(tua_fn(c, ab)), tua_fn(c, ab)(1) >= 1,
-        // a step of the RBF adds at least one job of cost C
-        forall |a: int| a >= 0 && #[trigger] is_step(tua_fn(c, ab), a) ==> tua_fn(c, ab)(a + 1) >= tua_fn(c, ab)(a) + c,
-        forall |a: int| a >= 0 ==> #[trigger] tua_fn(c, ab)(a + 1) >= c,
-{
-    ab.na_props();
-    assert(c * 0 == 0) by { lemma_mul_basics(c); }
-    assert forall |a: int, b: int| 0 <= a <= b implies 0 <= #[trigger] tua_fn(c, ab)(a) <= #[trigger] tua_fn(c, ab)(b) by {
-        lemma_mul_nonnegative(c, ab.na(a));
-        lemma_mul_inequality(ab.na(a), ab.na(b), c); lemma_mul_is_commutative(c, ab.na(a)); lemma_mul_is_commutative(c, ab.na(b));
-    }
-    assert(c * ab.na(1) >= 1) by { lemma_mul_inequality(1, ab.na(1), c); lemma_mul_is_commutative(c, ab.na(1)); }
-    assert forall |a: int| a >= 0 && #[trigger] is_step(tua_fn(c, ab), a) implies tua_fn(c, ab)(a + 1) >= tua_fn(c, ab)(a) + c by {
-        let n0 = ab.na(a); let n1 = ab.na(a + 1);
-        assert(n0 <= n1);
-        assert(n1 >= n0 + 1) by { if n1 <= n0 { assert(n1 == n0); } }
-        assert(c * n1 >= c * n0 + c) by { lemma_mul_inequality(n0 + 1, n1, c); lemma_mul_is_commutative(c, n1); lemma_mul_is_distributive_add(c, n0, 1); lemma_mul_is_commutative(c, n0 + 1); }
-    }
-    assert forall |a: int| a >= 0 implies #[trigger] tua_fn(c, ab)(a + 1) >= c by {
-        assert(ab.na(1) <= ab.na(a + 1));
-        lemma_mul_inequality(1, ab.na(a + 1), c); lemma_mul_is_commutative(c, ab.na(a + 1));
-    }
-}
-
 //@item src/fixed_priority/fully_nonpreemptive.rs :: struct TaskUnderAnalysis
 pub struct TaskUnderAnalysis<'a, AB: ArrivalBound + ?Sized> {
     /// The task's WCET.
@@ -98,11 +70,15 @@ where
     let L = fixed_point::search(&proc, limit, |L/*+*/: Duration/*-*/| /*+*/-> (r: Service)
         requires 1 <= L.v() <= limit.v(), pre(tua, interfering_tasks@, limit.v()), tua_rbf.wcet == tua.wcet, tua_rbf.arrival_bound == tua.arrivals
         ensures r.v() == w_bw(tua_fn(tua.wcet.wcet.v(), tua.arrivals), hp_fn(interfering_tasks@), tua.blocking_bound.v())(L.v())
-    /*-*/{
+    /*-*/{ /*@probe*/
 //@+
         proof {
             lemma_tua_fn(tua.wcet.wcet.v(), tua.arrivals);
             lemma_sum_rbf_mono(interfering_tasks@, L.v(), limit.v());
+            let tf0 = tua_fn(tua.wcet.wcet.v(), tua.arrivals);
+            assert(tf0(limit.v() + 1) == tua.wcet.wcet.v() * tua.arrivals.na(limit.v() + 1));
+            assert(0 <= tf0(0) <= tf0(limit.v() + 1));
+            assert(sum_rbf(interfering_tasks@, L.v()) <= sum_rbf(interfering_tasks@, limit.v()) <= u64::MAX);
             assert(all_rb_ok(interfering_tasks@, L.v()));
             assert forall |i: int| 0 <= i < interfering_tasks@.len() implies (|t: InterferingRBF| t.rbf(L.v()))(#[trigger] interfering_tasks@[i]) >= 0 by { interfering_tasks@[i].rbf_props(); }
         }
@@ -148,14 +124,14 @@ where
                  tua_rbf.wcet == tua.wcet, tua_rbf.arrival_bound == tua.arrivals, rem_cost.v() == rem_of(tua),
                  dscan(w_bw(tua_fn(tua.wcet.wcet.v(), tua.arrivals), hp_fn(interfering_tasks@), tua.blocking_bound.v()), limit.v()) == Some(L.v())
         ensures res_view(r) == f_off(tua_fn(tua.wcet.wcet.v(), tua.arrivals), hp_fn(interfering_tasks@), tua.blocking_bound.v(), rem_of(tua), limit.v(), A.v())
-    /*-*/{
+    /*-*/{ /*@probe*/
         // Define the RHS of the equation in theorem 31 of the aRTA paper,
         // where AF = A + F.
         let rhs = |AF: Duration| /*+*/-> (r: Service)
             requires 1 <= AF.v() <= limit.v(), A.v() < limit.v(), pre(tua, interfering_tasks@, limit.v()),
                      tua_rbf.wcet == tua.wcet, tua_rbf.arrival_bound == tua.arrivals, rem_cost.v() == rem_of(tua)
             ensures r.v() == w_off(tua_fn(tua.wcet.wcet.v(), tua.arrivals), hp_fn(interfering_tasks@), tua.blocking_bound.v(), rem_of(tua), A.v())(AF.v())
-        /*-*/{
+        /*-*/{ /*@probe*/
 //@+
             proof {
                 let tf = tua_fn(tua.wcet.wcet.v(), tua.arrivals);
@@ -165,6 +141,8 @@ where
                 assert(tua.arrivals.na_ok(A.v() + 1));
                 assert(tua_rbf.rbf(A.v() + 1) == tf(A.v() + 1));
                 lemma_sum_rbf_mono(interfering_tasks@, limit.v(), limit.v());
+                assert(tf(limit.v() + 1) == tua.wcet.wcet.v() * tua.arrivals.na(limit.v() + 1));
+                assert(0 <= tf(0) <= tf(limit.v() + 1));
             }
 //@-
             // demand of the task under analysis
@@ -174,6 +152,7 @@ where
 //@+
             proof {
                 lemma_sum_rbf_mono(interfering_tasks@, AF.v(), limit.v());
+                assert(sum_rbf(interfering_tasks@, AF.v()) <= sum_rbf(interfering_tasks@, limit.v()) <= u64::MAX);
                 assert(all_rb_ok(interfering_tasks@, AF.v()));
                 assert forall |i: int| 0 <= i < interfering_tasks@.len() implies (|t: InterferingRBF| t.rbf(AF.v()))(#[trigger] interfering_tasks@[i]) >= 0 by { interfering_tasks@[i].rbf_props(); }
             }
